@@ -32,6 +32,7 @@ BINDERS = {
     "FunctionDef": ({"name", "posonlyargs", "args", "kwonlyargs", "vararg", "kwarg", "arg"}, True),
     "AsyncFunctionDef": ({"name", "posonlyargs", "args", "kwonlyargs", "vararg", "kwarg", "arg"}, True),
     "ClassDef": ({"name"}, True),
+    "Lambda": ({"posonlyargs", "args", "kwonlyargs", "vararg", "kwarg", "arg"}, True),
     "For": ({"target"}, True),
     "AsyncFor": ({"target"}, True),
     "With": ({"items", "optional_vars"}, True),
@@ -323,8 +324,27 @@ def check(ctx):
     ok = "gather_load_store_names" in src and "reversed(self.contexts)" in src
     ctx.ob("R2", f"{AS}:CtxAwareTransformer.is_in_scope", "consults every enclosing scope (innermost first) for the names the node loads", ok, key="is_in_scope-shape")
 
+    # names bound by a sequence target: every level of nesting (`a, (b, *c) = ...`)
+    va, _ = _resolve_visitor(cls, "visit_Assign")
+    if va is not None:
+        deep = []
+        shallow = []
+        for n in walk_local(va):
+            if isinstance(n, ast.If) and any(isinstance(t, ast.Call) and call_name(t) == "isinstance" and len(t.args) == 2 and any(k in unparse(t.args[1]) for k in ("Tuple", "List")) for t in ast.walk(n.test)):
+                for c in [c for b_ in n.body for c in calls_in(b_)]:
+                    nm = call_name(c) or ""
+                    if nm in ("gather_names", "gather_load_store_names", "walk", "ast.walk"):
+                        deep.append(c)
+                    elif isinstance(c.func, ast.Name) and mod.has(c.func.id) and isinstance(mod.get(c.func.id), FuncTypes):
+                        h = mod.get(c.func.id)
+                        # descends into nested sequences: a loop / comprehension over `<x>.elts` that applies the helper itself to
+                        # the elements, or a full walk
+                        loops_ = [l_ for l_ in ast.walk(h) if isinstance(l_, (ast.For, ast.comprehension)) and isinstance(l_.iter, ast.Attribute) and l_.iter.attr == "elts"]
+                        rec = any(isinstance(x, ast.Call) and isinstance(x.func, ast.Name) and x.func.id == h.name for l_ in loops_ for x in (ast.walk(l_) if isinstance(l_, ast.For) else ast.walk(parent(l_)))) or any((call_name(x) or "") in ("walk", "ast.walk", "gather_names", "gather_load_store_names") for x in calls_in(h))
+                        (deep if rec else shallow).append(c)
+        ctx.ob("R1", f"{AS}:CtxAwareTransformer.visit_Assign", "the names of a tuple / list target are collected at every level of nesting (a recursive helper or a full walk), not from its direct elements only", bool(deep), key="Assign|nested-target-names", where=loc(shallow[0]) if shallow else loc(va), detail=f"`{short(shallow[0], 60)}` looks at one level" if shallow and not deep else None)
     # ------------------------------------------------------------------ R3
-    for construct in ("FunctionDef", "ClassDef"):
+    for construct in ("FunctionDef", "ClassDef", "Lambda"):
         fn, _ = _resolve_visitor(cls, f"visit_{construct}")
         if fn is None:
             continue
@@ -343,8 +363,9 @@ def check(ctx):
         # the definition's own name is registered in the *enclosing* scope (before the push)
         adds = [n for n in cfg.nodes if n.kind == "stmt" and any(call_name(c) == "self.ctxadd" and c.args and unparse(c.args[0]) == "node.name" for c in calls_in(n.ast))]
         ok = bool(adds) and bool(push) and all(cfg.dominated(p, lambda m: m in adds) for p in push)
-        ctx.ob("R3", st, "the defined name is registered in the enclosing scope before the body scope is pushed", ok, key=f"{construct}|name-in-inner-scope", where=loc(fn))
-        if construct == "FunctionDef":
+        if construct != "Lambda":
+            ctx.ob("R3", st, "the defined name is registered in the enclosing scope before the body scope is pushed", ok, key=f"{construct}|name-in-inner-scope", where=loc(fn))
+        if construct in ("FunctionDef", "Lambda"):
             # a parameter registration is found by its ROLE: a call that adds to a scope of the stack and whose argument is
             # derived from the parameter fields of the definition - whichever helper (`ctxupdate` with one iterable,
             # `ctxadd` in a loop, the set itself) does it.  What must hold for each: the scope written to is the innermost
@@ -376,7 +397,7 @@ def check(ctx):
                 lookups = {m for _c, _n, look, _l in regs for m in look}
                 fine, late = cfg.never_after(pop, lambda m: m in lookups)
             ok = bool(regs) and bool(push) and not bad and late is None
-            ctx.ob("R3", st, "parameters are registered in the body scope (after the push)", ok, key="FunctionDef|params-outer-scope", where=loc(bad[0]) if bad else loc(fn), detail=(f"`{short(bad[0], 60)}` does not write to the scope pushed for the body" if bad else "a parameter registration can run after the body scope was popped" if late else "no registration derived from the parameter fields" if not regs else None), path=cfg.fmt_path(late) if late else None)
+            ctx.ob("R3", st, "parameters are registered in the body scope (after the push)", ok, key=f"{construct}|params-outer-scope", where=loc(bad[0]) if bad else loc(fn), detail=(f"`{short(bad[0], 60)}` does not write to the scope pushed for the body" if bad else "a parameter registration can run after the body scope was popped" if late else "no registration derived from the parameter fields" if not regs else None), path=cfg.fmt_path(late) if late else None)
     vc = class_methods(cls).get("visit_comprehension")
     ok = vc is not None and not any(call_name(c) in ("self.generic_visit", "self.visit", "self.try_subproc_toks") for c in calls_in(vc))
     ctx.ob("R3", f"{AS}:CtxAwareTransformer.visit_comprehension", "comprehensions are never descended into (their targets are local)", ok, key="comprehension-descends")
@@ -504,5 +525,5 @@ META = {
     "with CPython for every program is not decided.",
     "note": "Decides the listed structural clauses, not the behaviour. Binder list = the property's list intersected "
     "with the node kinds of the running interpreter's ast module.",
-    "more": 'Also decided: no binding construct takes names out of the context again (only `del` does); an `except ... as n` target may be registered by visit_Try/TryStar or by visit_ExceptHandler.',
+    "more": 'Also decided: no binding construct takes names out of the context again (only `del` does); an `except ... as n` target may be registered by visit_Try/TryStar or by visit_ExceptHandler. Lambda is a binder like def: a visitor exists that pushes a scope, registers all parameter kinds in it and pops it; the names of a tuple / list assignment target are collected at every level of nesting. The raise wrapper wraps a BoolOp only on evidence computed from that BoolOp\'s own subtree (a pure-Python `a or b` stays Python whatever commands precede it).',
 }
